@@ -9,9 +9,20 @@ import (
 // Channel hooks.  Real Go channels are kept; because exactly one controlled
 // thread runs, the scheduler can decide readiness from len/cap (by reflection)
 // plus a closed-set maintained by the Closed hook, and the real operation that
-// follows the hook then cannot block.  Unbuffered channels that are sent on
-// are not supported (hard error): all such channels in the rewritten code are
-// buffered or close-only.
+// follows the hook then cannot block.
+//
+// Unbuffered channels are a rendezvous.  A receiver (BeforeRecv, or a select
+// without default that has a receive clause on the channel) is passive: its
+// operation becomes enabled only when the channel is closed or a sender has
+// claimed it.  A sender's operation is enabled once such a receiver is parked;
+// when the scheduler picks the sender it claims a receiver (a recorded data
+// choice if there are several), hands the token to it without a scheduling
+// decision and goes on into its real send, which completes against the
+// receiver's real receive; AfterSend then parks the sender again as an enabled
+// thread, and every later scheduling decision first waits for that.  Not
+// modelled (hard error, reported as a broken check, never as a verdict): a send
+// clause of a select on an unbuffered channel, and a select with a default
+// clause polling an unbuffered channel on which a sender is pending.
 
 func chanPtr(ch interface{}) uintptr {
 	v := reflect.ValueOf(ch)
@@ -54,11 +65,66 @@ func (o sendOp) String() string {
 }
 
 type recvOp struct {
-	sc *sched
-	ch interface{}
+	sc   *sched
+	ch   interface{}
+	self *thread
 }
 
-func (o recvOp) Enabled() bool { return recvReady(o.sc, o.ch) }
+func (o recvOp) Enabled() bool {
+	return recvReady(o.sc, o.ch) || (o.self != nil && o.self.matched != 0 && o.self.matched == chanPtr(o.ch))
+}
+
+// usendOp is a pending send on an unbuffered channel.
+type usendOp struct {
+	sc   *sched
+	ch   interface{}
+	self *thread
+}
+
+func (o usendOp) Enabled() bool {
+	return o.sc.isClosed(o.ch) || len(o.sc.receiversOn(o.ch, o.self)) > 0
+}
+func (o usendOp) String() string {
+	return fmt.Sprintf("send(%#x %s unbuffered)", chanPtr(o.ch), reflect.ValueOf(o.ch).Type().Elem())
+}
+
+// receiversOn lists the parked threads that wait to receive from the unbuffered
+// channel ch and have not been claimed yet.
+func (sc *sched) receiversOn(ch interface{}, except *thread) []*thread {
+	p := chanPtr(ch)
+	var out []*thread
+	for _, t := range sc.threads {
+		if t == except || t.done || t.op == nil || t.matched != 0 {
+			continue
+		}
+		switch o := t.op.(type) {
+		case recvOp:
+			if chanPtr(o.ch) == p {
+				out = append(out, t)
+			}
+		case selectOp:
+			for _, c := range o.cases {
+				if !c.send && !reflect.ValueOf(c.ch).IsNil() && chanPtr(c.ch) == p {
+					out = append(out, t)
+					break
+				}
+			}
+		}
+	}
+	return out
+}
+
+// pendingSenderOn reports whether some thread is parked in a send on the
+// unbuffered channel ch.
+func (sc *sched) pendingSenderOn(ch interface{}) bool {
+	p := chanPtr(ch)
+	for _, t := range sc.threads {
+		if o, ok := t.op.(usendOp); ok && !t.done && chanPtr(o.ch) == p {
+			return true
+		}
+	}
+	return false
+}
 func (o recvOp) String() string {
 	v := reflect.ValueOf(o.ch)
 	return fmt.Sprintf("recv(%#x %s len=%d cap=%d)", chanPtr(o.ch), v.Type().Elem(), v.Len(), v.Cap())
@@ -70,17 +136,56 @@ func checkAbort() {
 	}
 }
 
-// BeforeSend must precede `ch <- v`.
-func BeforeSend(ch interface{}) {
+// BeforeSend must precede `ch <- v`; its result goes to AfterSend right after
+// the send (nil unless the channel is unbuffered).
+func BeforeSend(ch interface{}) interface{} {
 	checkAbort()
 	if !Active() {
-		return
+		return nil
 	}
 	v := reflect.ValueOf(ch)
-	if !v.IsNil() && v.Cap() == 0 {
-		panic("vsched: send on an unbuffered channel is not modelled")
+	if v.IsNil() || v.Cap() > 0 {
+		Point(sendOp{s, ch})
+		return nil
 	}
-	Point(sendOp{s, ch})
+	sc := s
+	t := sc.cur
+	Point(usendOp{sc, ch, t})
+	if sc.isClosed(ch) {
+		return nil // the real send panics, as it should
+	}
+	rs := sc.receiversOn(ch, t)
+	if len(rs) == 0 {
+		panic("vsched: rendezvous sender scheduled without a receiver; construct is not modelled")
+	}
+	r := rs[0]
+	if len(rs) > 1 {
+		r = rs[Choose(len(rs), "rendezvous-receiver")]
+	}
+	r.matched = chanPtr(ch)
+	sc.inflight = append(sc.inflight, t)
+	sc.cur = r
+	r.wake <- struct{}{}
+	return t
+}
+
+// AfterSend must follow `ch <- v` with BeforeSend's result.
+func AfterSend(tok interface{}) {
+	t, ok := tok.(*thread)
+	if !ok || t == nil {
+		return
+	}
+	sc := s
+	if sc == nil {
+		return
+	}
+	t.op = basicOp("sent (rendezvous)")
+	t.parked <- struct{}{}
+	<-t.wake
+	if sc.aborted {
+		panic(abortSentinel{})
+	}
+	t.op = nil
 }
 
 // BeforeRecv must precede a receive from ch.
@@ -89,7 +194,9 @@ func BeforeRecv(ch interface{}) {
 	if !Active() {
 		return
 	}
-	Point(recvOp{s, ch})
+	t := s.cur
+	Point(recvOp{s, ch, t})
+	t.matched = 0
 }
 
 // Closed must precede close(ch).
@@ -115,6 +222,7 @@ type selectOp struct {
 	sc         *sched
 	cases      []SelCase
 	hasDefault bool
+	self       *thread
 }
 
 func (o selectOp) ready() []int {
@@ -130,7 +238,9 @@ func (o selectOp) ready() []int {
 	}
 	return r
 }
-func (o selectOp) Enabled() bool { return o.hasDefault || len(o.ready()) > 0 }
+func (o selectOp) Enabled() bool {
+	return o.hasDefault || len(o.ready()) > 0 || (o.self != nil && o.self.matched != 0)
+}
 func (o selectOp) String() string {
 	return fmt.Sprintf("select(%d cases, default=%v)", len(o.cases), o.hasDefault)
 }
@@ -142,7 +252,7 @@ func Select(hasDefault bool, cases ...SelCase) int {
 	checkAbort()
 	if !Active() {
 		// pass-through (set-up / tear-down only): poll
-		o := selectOp{&sched{closed: map[uintptr]bool{}}, cases, hasDefault}
+		o := selectOp{&sched{closed: map[uintptr]bool{}}, cases, hasDefault, nil}
 		for {
 			if r := o.ready(); len(r) > 0 {
 				return r[0]
@@ -153,7 +263,8 @@ func Select(hasDefault bool, cases ...SelCase) int {
 			time.Sleep(200 * time.Microsecond)
 		}
 	}
-	o := selectOp{s, cases, hasDefault}
+	t := s.cur
+	o := selectOp{s, cases, hasDefault, t}
 	for _, c := range cases {
 		if c.send {
 			v := reflect.ValueOf(c.ch)
@@ -163,6 +274,24 @@ func Select(hasDefault bool, cases ...SelCase) int {
 		}
 	}
 	Point(o)
+	if m := t.matched; m != 0 {
+		// a sender claimed this thread: take the receive clause on that channel
+		t.matched = 0
+		for i, c := range cases {
+			if !c.send && !reflect.ValueOf(c.ch).IsNil() && chanPtr(c.ch) == m {
+				return i
+			}
+		}
+		panic("vsched: matched select has no clause for the channel; construct is not modelled")
+	}
+	if hasDefault {
+		for _, c := range cases {
+			v := reflect.ValueOf(c.ch)
+			if !c.send && !v.IsNil() && v.Cap() == 0 && !s.isClosed(c.ch) && s.pendingSenderOn(c.ch) {
+				panic("vsched: select with default polling an unbuffered channel with a pending sender is not modelled")
+			}
+		}
+	}
 	r := o.ready()
 	switch len(r) {
 	case 0:
